@@ -4,6 +4,7 @@ import (
 	"fmt"
 	"math/rand"
 	"sort"
+	"strings"
 
 	. "verifh/simsched"
 
@@ -44,11 +45,7 @@ type RaftSim struct {
 	Opts RaftOpts
 	hist *raftHist
 	// Stats observed by the monitors.
-	Leaders     map[int]int // term -> leader
-	MaxTerm     int
-	Truncations int
-	Crashes     int
-	Applied     int
+	*RaftStats
 }
 
 // History returns the recorded client operations (completed ones and open ones).
@@ -213,7 +210,7 @@ func Raftkvs(seed int64, o RaftOpts) *RaftSim {
 	hist.cur = histState{pending: map[int]*HistOp{}, putCount: map[int]int{}, opCount: map[int]int{}}
 	hist.committed = hist.cur.clone()
 	st.Aux = append(st.Aux, fifo, hist)
-	rs := &RaftSim{Opts: o, hist: hist, Leaders: map[int]int{}}
+	rs := &RaftSim{Opts: o, hist: hist}
 
 	bias := map[string]uint{"fd": o.BiasFD, "lt": o.BiasLeaderTimeout, "to": o.BiasClientTimeout}
 	coinR := func(id string) RD {
@@ -412,8 +409,11 @@ func Raftkvs(seed int64, o RaftOpts) *RaftSim {
 		MaxSteps:   400}
 	s.IdleRounds = 12
 	rs.Sim = sim
-	rs.installMonitors(st, NS)
-	inner := sim.Monitor
+	mon := NewRaftMonitor(NS, st.Get, "C08:sim:", true)
+	rs.RaftStats = mon.Stats
+	inner := func(step Step) []Violation {
+		return mon.Check(fmt.Sprintf("after commit %d (%s by %s)", step.N, step.Label, step.Proc.Self.String()))
+	}
 	sim.Monitor = func(step Step) []Violation {
 		// client-side retries: every committed sndReq that actually wrote to the network is one transmission
 		if step.Label == "AClient.sndReq" && !o.Exact {
@@ -454,7 +454,29 @@ func readLog(v tla.Value) []rentry {
 	return out
 }
 
-func (rs *RaftSim) installMonitors(st *Store, NS int) {
+// RaftStats is what the monitors observed.
+type RaftStats struct {
+	Leaders     map[int]int // term -> leader
+	MaxTerm     int
+	Truncations int
+	Crashes     int
+	Applied     int
+}
+
+// RaftMonitor evaluates the Raft safety invariants (state forms as written in raftkvs.tla plus the
+// history-strengthened forms, all of which are insensitive to how commit points of different servers
+// interleave) on a view of the per-server variables.
+type RaftMonitor struct {
+	Stats *RaftStats
+	Check func(where string) []Violation
+}
+
+// NewRaftMonitor builds a monitor over get(variable) = the function ServerSet -> value; prefix is prepended
+// to violation keys ("C08:sim:" / "C08:cluster:"). withNetwork: the view is the full simulated state (it has
+// network[i].enabled and plog as a sequence; the spec-internal plogOK is only evaluated there).
+func NewRaftMonitor(NS int, get func(string) tla.Value, prefix string, withNetwork bool) *RaftMonitor {
+	rs := &RaftStats{Leaders: map[int]int{}}
+	m := &RaftMonitor{Stats: rs}
 	// history state
 	entryAt := map[[2]int]rentry{}   // (index, term) -> entry, over all logs ever held
 	committedAt := map[int]rentry{}  // index -> entry, over all servers and times (entries at or below a commitIndex)
@@ -465,28 +487,30 @@ func (rs *RaftSim) installMonitors(st *Store, NS int) {
 		prevEnabled[i] = true
 	}
 	first := true
-	rs.Sim.Monitor = func(step Step) []Violation {
+	m.Check = func(where string) []Violation {
 		var vs []Violation
 		add := func(key, f string, a ...any) {
-			vs = append(vs, Violation{Key: key, Desc: fmt.Sprintf("after commit %d (%s by %s): ", step.N, step.Label, step.Proc.Self.String()) + fmt.Sprintf(f, a...)})
+			vs = append(vs, Violation{Key: strings.Replace(key, "C08:sim:", prefix, 1), Desc: where + ": " + fmt.Sprintf(f, a...)})
 		}
 		logs := make([][]rentry, NS+1)
 		state := make([]string, NS+1)
 		term := make([]int, NS+1)
 		ci := make([]int, NS+1)
 		for i := 1; i <= NS; i++ {
-			logs[i] = readLog(st.Get("log").ApplyFunction(N(i)))
-			state[i] = st.Get("state").ApplyFunction(N(i)).AsString()
-			term[i] = int(st.Get("currentTerm").ApplyFunction(N(i)).AsNumber())
-			ci[i] = int(st.Get("commitIndex").ApplyFunction(N(i)).AsNumber())
+			logs[i] = readLog(get("log").ApplyFunction(N(i)))
+			state[i] = get("state").ApplyFunction(N(i)).AsString()
+			term[i] = int(get("currentTerm").ApplyFunction(N(i)).AsNumber())
+			ci[i] = int(get("commitIndex").ApplyFunction(N(i)).AsNumber())
 			if term[i] > rs.MaxTerm {
 				rs.MaxTerm = term[i]
 			}
-			en := Fld(st.Get("network").ApplyFunction(N(i)), "enabled").AsBool()
-			if prevEnabled[i] && !en {
-				rs.Crashes++
+			if withNetwork {
+				en := Fld(get("network").ApplyFunction(N(i)), "enabled").AsBool()
+				if prevEnabled[i] && !en {
+					rs.Crashes++
+				}
+				prevEnabled[i] = en
 			}
-			prevEnabled[i] = en
 		}
 		// ElectionSafety (state form) + unique leader per term over the whole run
 		for i := 1; i <= NS; i++ {
@@ -553,12 +577,12 @@ func (rs *RaftSim) installMonitors(st *Store, NS int) {
 			}
 			for j := i + 1; j <= NS; j++ {
 				if ci[i] == ci[j] {
-					if !st.Get("sm").ApplyFunction(N(i)).Equal(st.Get("sm").ApplyFunction(N(j))) || !st.Get("smDomain").ApplyFunction(N(i)).Equal(st.Get("smDomain").ApplyFunction(N(j))) {
+					if !get("sm").ApplyFunction(N(i)).Equal(get("sm").ApplyFunction(N(j))) || !get("smDomain").ApplyFunction(N(i)).Equal(get("smDomain").ApplyFunction(N(j))) {
 						add("C08:sim:ApplyLogOK", "servers %d and %d have commitIndex %d but different stores", i, j, ci[i])
 					}
 				}
 			}
-			if !st.Get("log").ApplyFunction(N(i)).Equal(st.Get("plog").ApplyFunction(N(i))) {
+			if withNetwork && !get("log").ApplyFunction(N(i)).Equal(get("plog").ApplyFunction(N(i))) {
 				add("C08:sim:plogOK", "log[%d] differs from the persistent log", i)
 			}
 		}
@@ -587,4 +611,5 @@ func (rs *RaftSim) installMonitors(st *Store, NS int) {
 		copy(prevState, state)
 		return vs
 	}
+	return m
 }
